@@ -12,6 +12,8 @@
 #include <sys/wait.h>
 #include <unistd.h>
 
+#include <malloc.h>
+
 #include "blfkit.h"
 #include "pathrun.h"
 #include "reflect_gen.h"
@@ -31,8 +33,17 @@ void * operator new(size_t n) {
     if (g_poison >= 0) memset(p, g_poison, n);
     return p;
 }
-void operator delete(void * p) noexcept { free(p); }
-void operator delete(void * p, size_t) noexcept { free(p); }
+// freed blocks: pattern 0x55 leaves them as they were, the other patterns overwrite them before the block goes back
+// to the allocator - so a result that depends on the contents of released memory (a stale read) differs between runs
+static inline void poison_free(void * p) {
+    if (p && g_poison >= 0 && g_poison != 0x55) {
+        memset(p, g_poison, malloc_usable_size(p));
+        __asm__ __volatile__("" : : "r"(p) : "memory");     // a store into memory that is freed next is dead to the optimiser
+    }
+    free(p);
+}
+void operator delete(void * p) noexcept { poison_free(p); }
+void operator delete(void * p, size_t) noexcept { poison_free(p); }
 #endif
 
 static std::string g_case;
